@@ -274,7 +274,7 @@ def run(ctx):
         name = rng.choice(['foo', 'foo-bar', 'a.b', 'gnome-shell', 'foo//bar'])
         att = rng.choice([[], ['@{exec_path}'], ['/usr/bin/x'], ['@{exec_path}', '/opt/x/bin/y'], ['/usr/bin/{a,b}', '/usr/lib/z', '@{bin}/w']])
         flags = rng.sample(['complain', 'attach_disconnected', 'mediate_deleted'], rng.randint(0, 3))
-        attrs = rng.choice([[], [], ['security.tagged=allowed']])
+        attrs = rng.choice([[], [], ['security.tagged=allowed'], ['security.tagged=allowed', 'user.trust=tier1'], ['security.apparmor=x', 'security.tagged=allowed', 'user.a=b']])
         fops.append('\t'.join([esc(name), esc_list(att), esc_list(flags), esc_list(attrs)] + [R.enc(x) for x in pre]))
         fexp.append((name, att, flags, attrs, pre))
     fout = ctx.run_go('fileroundtrip', fops)
